@@ -265,14 +265,7 @@ func (c *Ctx) ruleExcerpt() {
 			continue
 		}
 		// the parameter that receives the diagnostic's line
-		var lineParam *ssa.Parameter
-		for _, cs := range P.Callers(wf) {
-			for ai, a := range cs.Common().Args {
-				if strings.HasSuffix(P.Desc(a), "go/token.Position.Line)") && ai < len(wf.Params) {
-					lineParam = wf.Params[ai]
-				}
-			}
-		}
+		lineParam := c.lineOfWindowFunc(wf)
 		if lineParam == nil {
 			c.fail("EXCERPT/CONTAINS-LINE", cons, where, "the window function does not receive the diagnostic's line (token.Position.Line) from formatPrettyError")
 			continue
@@ -616,14 +609,7 @@ func (c *Ctx) ruleExcerptSliceWindow() int {
 			})
 			c.check(okNum, "EXCERPT/NUMBERING", cons, where, "content is lines[lo:hi] and the number beside content[k] is lo+k+1", whyNum)
 			// the parameter that receives the diagnostic's line
-			var lineParam *ssa.Parameter
-			for _, cs := range P.Callers(fn) {
-				for ai, a := range cs.Common().Args {
-					if strings.HasSuffix(P.Desc(a), "go/token.Position.Line)") && ai < len(fn.Params) {
-						lineParam = fn.Params[ai]
-					}
-				}
-			}
+			lineParam := c.lineOfWindowFunc(fn)
 			if lineParam == nil {
 				c.fail("EXCERPT/CONTAINS-LINE", cons, where, "the window function does not receive the diagnostic's line (token.Position.Line)")
 				return
@@ -735,4 +721,46 @@ func (c *Ctx) ruleExcerptSamePosition() {
 		})
 	}
 	c.floor("calls that take a file name with the line of a position", n, 1)
+}
+
+// lineOfWindowFunc: the value that stands for the diagnostic's line inside the window function - the parameter
+// that receives token.Position.Line, or the field Line of a parameter that receives the token.Position itself.
+func (c *Ctx) lineOfWindowFunc(wf *ssa.Function) ssa.Value {
+	P := c.P
+	var out ssa.Value
+	for _, cs := range P.Callers(wf) {
+		for ai, a := range cs.Common().Args {
+			if ai >= len(wf.Params) {
+				continue
+			}
+			if strings.HasSuffix(P.Desc(a), "go/token.Position.Line)") {
+				out = wf.Params[ai]
+				continue
+			}
+			if typeStr(a.Type()) == "go/token.Position" {
+				prm := wf.Params[ai]
+				// the parameter itself (t.Line), or the local cell it is spilled to because its fields are selected
+				var cell ssa.Value
+				allInstrs(wf, func(_ *ssa.BasicBlock, ins ssa.Instruction) {
+					if st, ok := ins.(*ssa.Store); ok && st.Val == ssa.Value(prm) {
+						cell = st.Addr
+					}
+				})
+				allInstrs(wf, func(_ *ssa.BasicBlock, ins ssa.Instruction) {
+					if out != nil {
+						return
+					}
+					if f, ok := ins.(*ssa.Field); ok && f.X == ssa.Value(prm) && fieldName(f.X.Type(), f.Field) == "Line" {
+						out = f
+					}
+					if u, ok := ins.(*ssa.UnOp); ok && u.Op == token.MUL && cell != nil {
+						if fa, ok := u.X.(*ssa.FieldAddr); ok && fa.X == cell && fieldName(deref(fa.X.Type()), fa.Field) == "Line" {
+							out = u
+						}
+					}
+				})
+			}
+		}
+	}
+	return out
 }
